@@ -55,6 +55,16 @@ func (v c18Verifier) VerifyJSONs(ctx context.Context, reqs []gmsl.VerifyJSONRequ
 	return res, nil
 }
 
+// a state provider that knows no state (a nil one would be a local configuration error)
+type c18StateProvider struct{}
+
+func (c18StateProvider) StateIDsBeforeEvent(ctx context.Context, event gmsl.PDU) ([]string, error) {
+	return nil, nil
+}
+func (c18StateProvider) StateBeforeEvent(ctx context.Context, roomVer gmsl.RoomVersion, event gmsl.PDU, eventIDs []string) (map[string]gmsl.PDU, error) {
+	return map[string]gmsl.PDU{}, nil
+}
+
 type c18StateResp struct{ auth, state gmsl.EventJSONs }
 
 func (r c18StateResp) GetAuthEvents() gmsl.EventJSONs  { return r.auth }
@@ -411,7 +421,7 @@ func init() {
 		_, _ = gmsl.CheckSendJoinResponse(context.Background(), ver, c18StateResp{raws, raws}, c18Verifier{true}, evs[0], provider, c18UserIDForSender)
 		_ = gmsl.VerifyEventAuthChain(context.Background(), evs[0], provider, c18UserIDForSender)
 		_ = gmsl.VerifyAllEventSignatures(context.Background(), evs, c18Verifier{false}, c18UserIDForSender)
-		loader := gmsl.NewEventsLoader(ver, c18Verifier{true}, nil, provider, false)
+		loader := gmsl.NewEventsLoader(ver, c18Verifier{true}, c18StateProvider{}, provider, false)
 		rawMsgs := make([]json.RawMessage, len(raws))
 		for i := range raws {
 			rawMsgs[i] = json.RawMessage(raws[i])
